@@ -536,7 +536,13 @@ func ntpOf(t time.Time) uint64 {
 	return (ns/1000000000)<<32 | ((ns%1000000000)<<32)/1000000000
 }
 
-func mutateMsg(r *hx.Rand, m *aMsg, now time.Time) string {
+func mutateMsg(r *hx.Rand, m *aMsg, now time.Time) (what string) {
+	// a second mutation may hit an element the first one removed: then it is a no-op
+	defer func() {
+		if e := recover(); e != nil {
+			what = "noop"
+		}
+	}()
 	find := func(kind int) int {
 		for i, p := range m.payloads {
 			if p.kind == kind {
@@ -652,7 +658,7 @@ func runMsgCase(m *aMsg, what string) {
 	m.encIn(&c)
 	b, obs := mikeyToCtx(m.toReal())
 	idx := ctx.Corr(c.String(), obs)
-	ctx.Kind("msg:" + what + "->" + strings.SplitN(obs, " ", 3)[0] + func() string {
+	ctx.Kind("msg:" + strings.SplitN(what, "+", 2)[0] + "->" + strings.SplitN(obs, " ", 3)[0] + func() string {
 		if b == nil && len(obs) > 2 {
 			return "/" + obs[2:]
 		}
@@ -881,7 +887,7 @@ func runRocCase(rc *rocCase) {
 // ---------- exhaustive alterations of protected packets ----------
 
 func stageTamper() {
-	nPk := ctx.Budget(4, 24)
+	nPk := ctx.Budget(8, 24)
 	for k := 0; k < nPk; k++ {
 		key := ctx.Rng.Bytes(30)
 		var mki []byte
@@ -1003,14 +1009,14 @@ func stageCorpus() {
 
 func stageCtx() {
 	r := ctx.Rng
-	n := ctx.Budget(400, 40000)
+	n := ctx.Budget(1500, 40000)
 	for i := 0; i < n; i++ {
 		runCtxCase(genCtxCase(r, false))
 	}
 	for i := 0; i < n/8; i++ {
 		runCtxCase(genCtxCase(r, true))
 	}
-	nm := ctx.Budget(600, 60000)
+	nm := ctx.Budget(2500, 60000)
 	for i := 0; i < nm; i++ {
 		now := time.Now()
 		m := validMsg(r, now)
@@ -1020,7 +1026,7 @@ func stageCtx() {
 		}
 		runMsgCase(m, what)
 	}
-	nr := ctx.Budget(400, 30000)
+	nr := ctx.Budget(1500, 30000)
 	for i := 0; i < nr; i++ {
 		runRocCase(genRocCase(r))
 	}
